@@ -84,7 +84,9 @@ def build_case(cid, spec, strategy, client):
         sel, d = spec["neworder"]
         no = mk(sel, d, place=False)
         e = blotter.get_exposures(strategy, ("1.1", sel, 0), new_order=no)
-        new = {"sel": str(sel), "o": rec(d)}
+        # a prospective new order is counted in full whatever status it carries (e.g. VIOLATION when
+        # a refused order is submitted again): it is "added to the book" as an acknowledged order
+        new = {"sel": str(sel), "o": dict(rec(d), status="EXECUTABLE", cplt=False)}
         code["neworder"] = {"win": pence(e["worst_possible_profit_on_win"]), "lose": pence(e["worst_possible_profit_on_lose"])}
     code["market"] = pence(blotter.market_exposure(strategy, MB(spec["nactive"], spec["nwin"])))
     return {"id": cid, "bysel": bysel, "nactive": spec["nactive"], "nwin": spec["nwin"], "neworder": new, "code": code}
